@@ -261,4 +261,24 @@ def effBuf (P : Params) (cfg : Nat) : Nat := if cfg = 0 then P.defaultBuf else c
 def stderrLoop (P : Params) (E : Ext) (n : Nat) (input : Bytes) : Out :=
   stderrFold P E init (readAll n input)
 
+/-! ### when the loop ends -/
+
+/-- fact: `logStderr`'s loop is left only from the error switch that follows `ReadLine()` (EOF or a read error);
+the results of `config.Stderr.Write` do not end it -/
+structure ReaderParams where
+  endsOnlyOnReadError : Bool
+  deriving DecidableEq, Repr
+
+def ReaderParams.Good (R : ReaderParams) : Prop := R.endsOnlyOnReadError = true
+
+instance (R : ReaderParams) : Decidable R.Good := by unfold ReaderParams.Good; exact inferInstance
+
+/-- Number of `ReadLine` results the host takes from a stderr stream that yields `lines` of them, when the configured
+`Stderr` writer fails on the calls for which `sinkFails` holds (numbered from 0).  A loop that returns on a failed
+sink write stops at the first such result; everything after it stays in the pipe and the plugin blocks once the
+pipe buffer is full. -/
+def stderrTaken (R : ReaderParams) (sinkFails : Nat → Bool) : Nat → Nat → Nat
+  | 0, _ => 0
+  | lines+1, i => if !R.endsOnlyOnReadError && sinkFails i then 1 else 1 + stderrTaken R sinkFails lines (i + 1)
+
 end GoPlugin.LogLine
